@@ -134,7 +134,14 @@ declarations:
   cxx_template:
   - instantiation: <int>
   - instantiation: <double>
+- decl: |
+    template<typename T, typename U> double weigh(T count, U scale)
+  cxx_template:
+  - instantiation: <int, double>
+  - instantiation: <long, float>
 - decl: void order(int a, double b, const std::string &c, bool d)
+- decl: void halo(int n, int m, int *cells +intent(out)+dimension(n+2,m))
+- decl: int *nodes(int n, int m) +dimension(n+1,m+1)
 - decl: int total(const int *v +rank(1), int n +implied(size(v)))
 - decl: double total(const double *v +rank(1), int n +implied(size(v)))
 - decl: namespace ns
@@ -173,7 +180,10 @@ void over(int a);
 void over(double a);
 int dflt(int a, int b = 2);
 template<typename T> T tmpl(T a);
+template<typename T, typename U> double weigh(T count, U scale);
 void order(int a, double b, const std::string &c, bool d);
+void halo(int n, int m, int *cells);
+int *nodes(int n, int m);
 int total(const int *v, int n);
 double total(const double *v, int n);
 namespace ns { int nsf(int a); namespace inner { int innerf(int a); } }
@@ -202,7 +212,11 @@ void over(double a) { vt_txt("RECV over(double) a="); vt_d(a); vt_txt("\n"); }
 int dflt(int a, int b) { vt_txt("RECV dflt a="); vt_i(a); vt_txt(" b="); vt_i(b); vt_txt("\n"); return a * 10 + b; }
 template<> int tmpl<int>(int a) { vt_txt("RECV tmpl<int> a="); vt_i(a); vt_txt("\n"); return a + 1; }
 template<> double tmpl<double>(double a) { vt_txt("RECV tmpl<double> a="); vt_d(a); vt_txt("\n"); return a * 2; }
+template<> double weigh<int, double>(int count, double scale) { vt_txt("RECV weigh<int,double> count="); vt_i(count); vt_txt(" scale="); vt_d(scale); vt_txt("\n"); return count * scale; }
+template<> double weigh<long, float>(long count, float scale) { vt_txt("RECV weigh<long,float> count="); vt_i(count); vt_txt(" scale="); vt_f(scale); vt_txt("\n"); return count * (double) scale; }
 void order(int a, double b, const std::string &c, bool d) { vt_txt("RECV order a="); vt_i(a); vt_txt(" b="); vt_d(b); vt_txt(" c="); vt_s(c.data(), (long) c.size()); vt_txt(" d="); vt_i(d ? 1 : 0); vt_txt("\n"); }
+void halo(int n, int m, int *cells) { vt_txt("RECV halo n="); vt_i(n); vt_txt(" m="); vt_i(m); vt_txt("\n"); for (int i = 0; i < (n + 2) * m; i++) cells[i] = 100 + i; }
+int *nodes(int n, int m) { static int store[64]; vt_txt("RECV nodes n="); vt_i(n); vt_txt(" m="); vt_i(m); vt_txt("\n"); for (int i = 0; i < (n + 1) * (m + 1) && i < 64; i++) store[i] = 200 + i; return store; }
 int total(const int *v, int n) { int s = 0; vt_txt("RECV total(int) n="); vt_i(n); vt_txt("\n"); for (int i = 0; i < n; i++) s += v[i]; return s; }
 double total(const double *v, int n) { double s = 0; vt_txt("RECV total(double) n="); vt_i(n); vt_txt("\n"); for (int i = 0; i < n; i++) s += v[i]; return s; }
 namespace ns { int nsf(int a) { vt_txt("RECV ns::nsf a="); vt_i(a); vt_txt("\n"); return a + 1; }
@@ -236,7 +250,7 @@ def scenario_case(args):
     d = {"T": T, "P": P, "ctor": NC("ctor", ""), "dtor": NC("dtor", ""), "id": NC("id", ""), "add": NC("add", ""), "twice": NC("twice", ""),
          "rename": NC("rename", ""), "name": NC("name", ""), "whichc": NC("which", "_const"), "whichm": NC("which", "_mutable"), "takes": N("takes", ""), "find": N("findCls", ""), "new": N("newCls", ""),
          "val": N("valCls", ""), "next": N("nextColor", ""), "over0": N("over", "_0"), "over1": N("over", "_1"), "dflt0": N("dflt", "_0"),
-         "dflt1": N("dflt", "_1"), "tint": N("tmpl", "_int"), "tdbl": N("tmpl", "_double"), "order": N("order", ""), "nsf": NN("nsf", ""),
+         "dflt1": N("dflt", "_1"), "tint": N("tmpl", "_int"), "tdbl": N("tmpl", "_double"), "w0": N("weigh", "_0"), "w1": N("weigh", "_1"), "order": N("order", ""), "nsf": NN("nsf", ""),
          "innerf": NI("innerf", "")}
     drv = drv_c.C_PRELUDE + "\n".join('#include "%s"' % h for h in sorted(os.listdir(out)) if h.startswith("wrap") and h.endswith(".h")) + r"""
 int main(void) {
@@ -256,6 +270,7 @@ int main(void) {
   %(over0)s(4); %(over1)s(-1.5);
   printf("OBS dflt"); obs_i(%(dflt0)s(3)); obs_i(%(dflt1)s(3, 4)); printf("\n");
   printf("OBS tmpl"); obs_i(%(tint)s(41)); obs_d(%(tdbl)s(1.25)); printf("\n");
+  printf("OBS weigh"); obs_d(%(w0)s(3, 2.5)); obs_d(%(w1)s(4000000000L, 0.5f)); printf("\n");
   %(order)s(1, 2.5, "three", true); %(order)s(-1, -2.5, "", false);
   printf("OBS ns"); obs_i(%(nsf)s(1)); obs_i(%(innerf)s(1)); printf("\n");
   %(dtor)s(&a); %(dtor)s(&b);
@@ -264,7 +279,8 @@ int main(void) {
 """ % d
     open(os.path.join(out, "driver.c"), "w").write(drv)
     exp_obs = ["OBS ids 5 9", "OBS add 8 13 4", "OBS twice 42", "OBS names 0:[] 3:[bee]", "OBS which 1 2 1", "OBS find 100 101", "OBS new 7 8", "OBS val 8",
-               "OBS color 3 4 0", "OBS dflt 32 34", "OBS tmpl 42 " + A.rnd(A.NATIVE["double"], 2.5), "OBS ns 2 3"]
+               "OBS color 3 4 0", "OBS dflt 32 34", "OBS tmpl 42 " + A.rnd(A.NATIVE["double"], 2.5),
+               "OBS weigh %s %s" % (A.rnd(A.NATIVE["double"], 7.5), A.rnd(A.NATIVE["double"], 2e9)), "OBS ns 2 3"]
     D = A.NATIVE["double"]
     exp_recv = ["RECV Cls::Cls id=5", "RECV Cls::Cls id=9", "RECV Cls::add this=5 x=3", "RECV Cls::add this=9 x=4", "RECV Cls::add this=5 x=-1",
                 "RECV Cls::twice x=21", "RECV Cls::rename this=9 name=3:[bee]", "RECV Cls::rename this=5 name=0:[]",
@@ -276,6 +292,7 @@ int main(void) {
                 "RECV nextColor c=0", "RECV nextColor c=3", "RECV nextColor c=4",
                 "RECV over(int) a=4", "RECV over(double) a=" + A.rnd(D, -1.5),
                 "RECV dflt a=3 b=2", "RECV dflt a=3 b=4", "RECV tmpl<int> a=41", "RECV tmpl<double> a=" + A.rnd(D, 1.25),
+                "RECV weigh<int,double> count=3 scale=" + A.rnd(D, 2.5), "RECV weigh<long,float> count=4000000000 scale=" + A.rnd(A.NATIVE["float"], 0.5),
                 "RECV order a=1 b=%s c=5:[three] d=1" % A.rnd(D, 2.5), "RECV order a=-1 b=%s c=0:[] d=0" % A.rnd(D, -2.5),
                 "RECV ns::nsf a=1", "RECV ns::inner::innerf a=1", "RECV Cls::~Cls this=5", "RECV Cls::~Cls this=9"]
     errs = []
